@@ -6,6 +6,8 @@ import PM.Step
 import Proofs.Toks
 import Proofs.TokCore
 import Proofs.ReplaceToks
+import Proofs.Resolve
+import Proofs.StepValid
 namespace PM
 
 /-! ### specification vocabulary -/
@@ -73,14 +75,214 @@ def removeMarkToks (S : Schema) (m : Mark) (f t : Nat) (top : TypeId) (l : List 
   mapIdxCtx (fun i _ tok =>
     if f ≤ i ∧ i < t ∧ isInlineTok S tok = true then tok.withMarks (m.removeFromSet tok.marks) else tok) top l
 
+/-! ### shape of the mark maps, doc-attr step -/
+
+theorem range_map_getD {α β} (l : List α) (d : α) (f : α → β) :
+    (List.range l.length).map (fun i => f (l.getD i d)) = l.map f := by
+  apply List.ext_getElem
+  · simp
+  · intro i h1 h2
+    simp at h1
+    simp [List.getD_eq_getElem?_getD, h1]
+
+theorem mapIdxCtx_shape (g : Nat → TypeId → Tok → Tok) (top : TypeId) (l : List Tok)
+    (hg : ∀ i p tok, (g i p tok).shape = tok.shape) :
+    (mapIdxCtx g top l).map Tok.shape = l.map Tok.shape := by
+  unfold mapIdxCtx
+  rw [List.map_map]
+  rw [← range_map_getD l Tok.cl Tok.shape]
+  apply List.map_congr_left
+  intro i _
+  simp [hg]
+
+theorem Tok.withMarks_shape (m : Marks) (tok : Tok) : (tok.withMarks m).shape = tok.shape := by
+  cases tok <;> rfl
+
+/-- mark steps keep the structure and text -/
+theorem addMarkToks_shape (S : Schema) (m : Mark) (f t : Nat) (top : TypeId) (l : List Tok) :
+    (addMarkToks S m f t top l).map Tok.shape = l.map Tok.shape := by
+  unfold addMarkToks
+  apply mapIdxCtx_shape
+  intro i p tok
+  split
+  · exact Tok.withMarks_shape _ _
+  · rfl
+
+theorem removeMarkToks_shape (S : Schema) (m : Mark) (f t : Nat) (top : TypeId) (l : List Tok) :
+    (removeMarkToks S m f t top l).map Tok.shape = l.map Tok.shape := by
+  unfold removeMarkToks
+  apply mapIdxCtx_shape
+  intro i p tok
+  split
+  · exact Tok.withMarks_shape _ _
+  · rfl
+
+/-- **doc-attribute step**: content untouched -/
+theorem apply_docAttr_toks (S : Schema) (doc doc' : Node) (n v : String)
+    (h : S.apply (.docAttr n v) doc = .ok doc') : doc'.kids = doc.kids := by
+  unfold Schema.apply at h
+  cases doc with
+  | text s m => simp at h
+  | leaf t a m => simp at h
+  | elem t a m kids =>
+    simp only at h
+    cases hc : computeAttrs (S.nodeType t).attrs (List.filter (fun x => x.fst != n) a ++ [(n, v)]) with
+    | error e => rw [hc] at h; simp [Except.map] at h
+    | ok a' => rw [hc] at h; simp [Except.map] at h; subst h; rfl
+
 /-! ### insert_into / remove_range on tokens -/
+
+theorem flatInsert_toks (S : Schema) (ins : List Node) (parent : Option TypeId) (level : List Node)
+    (d idx : Nat) (c : List Node) (hd : d ≤ fsize level) (h0 : depthAt level d = 0)
+    (h : flatInsert S ins parent level d idx = .ok (some c)) :
+    ftoks c = (ftoks level).take d ++ ftoks ins ++ (ftoks level).drop d := by
+  have go : ∀ c, (match fcut level 0 d, fcut level d (fsize level) with
+      | .ok l, .ok r => (.ok (some (fappend (fappend l ins) r)) : Res (Option (List Node)))
+      | .error e, _ => .error e
+      | _, .error e => .error e) = .ok (some c) →
+      ftoks c = (ftoks level).take d ++ ftoks ins ++ (ftoks level).drop d := by
+    intro c hc
+    split at hc
+    · rename_i l r hl hr
+      simp at hc; subst hc
+      rw [fappend_toks, fappend_toks, fcut_prefix_toks hl hd h0, fcut_suffix_toks hr h0]
+    · simp at hc
+    · simp at hc
+  unfold flatInsert at h
+  simp only at h
+  split at h
+  · exact go c h
+  · split at h
+    · simp at h
+    · exact go c h
+    · simp at h
+
+theorem insertInto_toks_aux (S : Schema) (ins : List Node) :
+    ∀ (rest : List Node) (parent : Option TypeId) (level : List Node) (d0 idx d oa ob : Nat)
+      (pre c : List Node), level = pre ++ rest → idx = pre.length → d0 = fsize pre + d →
+      insertInto S ins parent level d0 idx rest d oa ob = .ok (some c) →
+      ftoks c = (ftoks level).take d0 ++ ftoks ins ++ (ftoks level).drop d0 ∧ d0 ≤ fsize level
+  | [], parent, level, d0, idx, d, oa, ob, pre, c, hl, hi, hd0, h => by
+    unfold insertInto at h
+    split at h
+    · rename_i hd; subst hd
+      have hle : d0 ≤ fsize level := by rw [hl, fsize_append]; simp; omega
+      have h0 : depthAt level d0 = 0 := by rw [hl, hd0, depthAt_append_pre]; simp
+      exact ⟨flatInsert_toks S ins parent level d0 idx c hle h0 h, hle⟩
+    · simp at h
+  | n :: ns, parent, level, d0, idx, d, oa, ob, pre, c, hl, hi, hd0, h => by
+    have hlsz : fsize level = fsize pre + (n.size + fsize ns) := by rw [hl, fsize_append]; simp
+    unfold insertInto at h
+    split at h
+    · rename_i hd; subst hd
+      have hle : d0 ≤ fsize level := by omega
+      have h0 : depthAt level d0 = 0 := by rw [hl, hd0, depthAt_append_pre]; simp
+      exact ⟨flatInsert_toks S ins parent level d0 idx c hle h0 h, hle⟩
+    · rename_i hd
+      split at h
+      · rename_i hle
+        refine insertInto_toks_aux S ins ns parent level d0 (idx + 1) (d - n.size) oa ob (pre ++ [n]) c
+          ?_ ?_ ?_ h
+        · simp [hl]
+        · simp [hi]
+        · rw [fsize_append]; simp; omega
+      · rename_i hlt
+        have hflat : (∀ ty a m k, n ≠ .elem ty a m k) →
+            flatInsert S ins parent level d0 idx = .ok (some c) →
+            ftoks c = (ftoks level).take d0 ++ ftoks ins ++ (ftoks level).drop d0 ∧ d0 ≤ fsize level := by
+          intro hne hf
+          have hle : d0 ≤ fsize level := by omega
+          have h0 : depthAt level d0 = 0 := by
+            rw [hl, hd0, depthAt_append_pre]
+            exact depthAt_nonelem_cons n ns d (by omega) hne
+          exact ⟨flatInsert_toks S ins parent level d0 idx c hle h0 hf, hle⟩
+        split at h
+        · rename_i ty a m kids
+          simp only [Node.size_elem, Nat.not_le] at hlt
+          simp only [Node.size_elem] at hlsz
+          simp only at h
+          split at h
+          · rename_i inner hin
+            simp at h; subst h
+            have ih := insertInto_toks_aux S ins kids _ kids (d - 1) 0 (d - 1) _ _ [] inner rfl rfl
+              (by simp) hin
+            subst hl; subst hi; subst hd0
+            refine ⟨?_, by omega⟩
+            rw [set_mid, ftoks_append, ftoks_append, ftoks_cons, ftoks_cons,
+              take_app_ge _ _ _ (by rw [ftoks_length]; omega),
+              drop_app_ge _ _ _ (by rw [ftoks_length]; omega), ftoks_length,
+              Nat.add_sub_cancel_left,
+              take_elem_toks _ _ _ _ _ _ hd hlt,
+              drop_elem_toks _ _ _ _ _ _ (by omega) (by omega)]
+            simp [ih.1]
+          · simp at h
+          · simp at h
+        · rename_i hne
+          exact hflat (by intro ty a m k he; exact hne ty a m k he) h
 
 /-- inserting at distance `d` (descending to the innermost node containing it) is a token insertion -/
 theorem insertInto_toks (S : Schema) (ins : List Node) (parent : Option TypeId) (level : List Node)
     (d oa ob : Nat) (c : List Node)
     (h : insertInto S ins parent level d 0 level d oa ob = .ok (some c)) :
-    ftoks c = (ftoks level).take d ++ ftoks ins ++ (ftoks level).drop d ∧ d ≤ fsize level := by
-  sorry
+    ftoks c = (ftoks level).take d ++ ftoks ins ++ (ftoks level).drop d ∧ d ≤ fsize level :=
+  insertInto_toks_aux S ins level parent level d 0 d oa ob [] c rfl rfl (by simp) h
+
+theorem split3 {α} (L : List α) (a e : Nat) (h : a + e ≤ L.length) :
+    ∃ A M D, L = A ++ M ++ D ∧ A.length = a ∧ D.length = e := by
+  refine ⟨L.take a, (L.drop a).take (L.length - a - e), (L.drop a).drop (L.length - a - e), ?_, ?_, ?_⟩
+  · rw [List.append_assoc, List.take_append_drop, List.take_append_drop]
+  · simp; omega
+  · simp; omega
+
+theorem split2 {α} (L : List α) (a : Nat) (h : a ≤ L.length) :
+    ∃ A B, L = A ++ B ∧ A.length = a :=
+  ⟨L.take a, L.drop a, by simp, by simp; omega⟩
+
+/-- inserting into the content at `p + a` is inserting into the window at `p` -/
+theorem insert_window {α} (L F : List α) (a p e : Nat) (h : a + p + e ≤ L.length) :
+    ((L.take (p + a) ++ F ++ L.drop (p + a)).drop a).take (L.length + F.length - a - e) =
+    ((L.drop a).take (L.length - a - e)).take p ++ F ++ ((L.drop a).take (L.length - a - e)).drop p := by
+  obtain ⟨A, M, D, rfl, ha, he⟩ := split3 L a e (by omega)
+  obtain ⟨B, C, rfl, hb⟩ := split2 M p (by simp at h; omega)
+  have e1 : (A ++ (B ++ C) ++ D).take (p + a) = A ++ B := by
+    rw [show A ++ (B ++ C) ++ D = (A ++ B) ++ (C ++ D) by simp]
+    exact List.take_left' (by simp; omega)
+  have e2 : (A ++ (B ++ C) ++ D).drop (p + a) = C ++ D := by
+    rw [show A ++ (B ++ C) ++ D = (A ++ B) ++ (C ++ D) by simp]
+    exact List.drop_left' (by simp; omega)
+  have e3 : (A ++ (B ++ C) ++ D).drop a = B ++ C ++ D := by
+    rw [show A ++ (B ++ C) ++ D = A ++ (B ++ C ++ D) by simp]
+    exact List.drop_left' ha
+  rw [e1, e2, e3]
+  rw [show A ++ B ++ F ++ (C ++ D) = A ++ (B ++ F ++ C ++ D) by simp, List.drop_left' ha]
+  rw [show B ++ F ++ C ++ D = (B ++ F ++ C) ++ D by simp, List.take_left' (by simp; omega)]
+  rw [List.take_left' (by simp; omega), List.take_left' hb, List.drop_left' hb]
+
+theorem remove_window {α} (L : List α) (a f t e : Nat) (hft : f ≤ t) (h : a + t + e ≤ L.length) :
+    ((L.take (f + a) ++ L.drop (t + a)).drop a).take (L.length - (t - f) - a - e) =
+    ((L.drop a).take (L.length - a - e)).take f ++ ((L.drop a).take (L.length - a - e)).drop t := by
+  obtain ⟨A, M, D, rfl, ha, he⟩ := split3 L a e (by omega)
+  obtain ⟨B, C', rfl, hb⟩ := split2 M f (by simp at h; omega)
+  obtain ⟨X, C, rfl, hx⟩ := split2 C' (t - f) (by simp at h; omega)
+  have e1 : (A ++ (B ++ (X ++ C)) ++ D).take (f + a) = A ++ B := by
+    rw [show A ++ (B ++ (X ++ C)) ++ D = (A ++ B) ++ (X ++ C ++ D) by simp]
+    exact List.take_left' (by simp; omega)
+  have e2 : (A ++ (B ++ (X ++ C)) ++ D).drop (t + a) = C ++ D := by
+    rw [show A ++ (B ++ (X ++ C)) ++ D = (A ++ B ++ X) ++ (C ++ D) by simp]
+    exact List.drop_left' (by simp; omega)
+  have e3 : (A ++ (B ++ (X ++ C)) ++ D).drop a = B ++ (X ++ C) ++ D := by
+    rw [show A ++ (B ++ (X ++ C)) ++ D = A ++ (B ++ (X ++ C) ++ D) by simp]
+    exact List.drop_left' ha
+  rw [e1, e2, e3]
+  rw [show A ++ B ++ (C ++ D) = A ++ (B ++ C ++ D) by simp, List.drop_left' ha]
+  rw [show B ++ C ++ D = (B ++ C) ++ D by simp, List.take_left' (by simp; omega)]
+  rw [List.take_left' (by simp; omega), List.take_left' hb]
+  rw [show B ++ (X ++ C) = (B ++ X) ++ C by simp, List.drop_left' (by simp; omega)]
+
+theorem wf_opens_le {sl : Slice} (hwf : sl.wf = true) : sl.openStart + sl.openEnd ≤ fsize sl.content := by
+  simp only [Slice.wf, Bool.and_eq_true, decide_eq_true_eq] at hwf
+  have := spine_sum_le sl.content
+  omega
 
 /-- `Slice.insert_at(pos, fragment)` inserts the fragment's tokens at offset `pos` of the slice's tokens -/
 theorem insertAt_toks (S : Schema) (sl ins : Slice) (pos : Nat) (frag : List Node)
@@ -88,7 +290,127 @@ theorem insertAt_toks (S : Schema) (sl ins : Slice) (pos : Nat) (frag : List Nod
     (h : sl.insertAt S pos frag = .ok (some ins)) :
     ins.toks = sl.toks.take pos ++ ftoks frag ++ sl.toks.drop pos ∧
     ins.openStart = sl.openStart ∧ ins.openEnd = sl.openEnd := by
-  sorry
+  unfold Slice.insertAt at h
+  split at h
+  · rename_i c hc
+    simp at h; subst h
+    obtain ⟨htk, hle⟩ := insertInto_toks S frag none sl.content _ _ _ c hc
+    refine ⟨?_, rfl, rfl⟩
+    have hw := wf_opens_le hwf
+    simp only [Slice.size] at hp
+    have hsz : fsize c = fsize sl.content + fsize frag := by
+      have := congrArg List.length htk
+      simp only [List.length_append, List.length_take, List.length_drop, ftoks_length] at this
+      omega
+    simp only [Slice.toks, htk, hsz]
+    have := insert_window (ftoks sl.content) (ftoks frag) sl.openStart pos sl.openEnd
+      (by rw [ftoks_length]; omega)
+    simpa only [ftoks_length] using this
+  · simp at h
+  · simp at h
+
+theorem flatAt_depth : ∀ (level : List Node) (t : Nat), flatAt level t = true → depthAt level t = 0
+  | [], t, _ => by simp [depthAt]
+  | n :: ns, t, h => by
+    unfold flatAt at h
+    rw [depthAt_cons]
+    split
+    · rfl
+    · rename_i h0
+      rw [if_neg h0] at h
+      split
+      · rename_i hle; rw [if_pos hle] at h; exact flatAt_depth ns _ h
+      · rename_i hle; rw [if_neg hle] at h
+        cases n with
+        | elem ty a m k => simp [Node.isText] at h
+        | text s m => rfl
+        | leaf ty a m => rfl
+
+theorem removeFlat_toks (level : List Node) (f t : Nat) (c : List Node) (hf : f ≤ fsize level)
+    (h0 : depthAt level f = 0) (h : removeRange.removeFlat level f t = .ok c) :
+    ftoks c = (ftoks level).take f ++ (ftoks level).drop t ∧ t ≤ fsize level := by
+  unfold removeRange.removeFlat at h
+  split at h
+  · simp at h
+  · rename_i hin
+    simp only [inRange, Bool.not_eq_true', decide_eq_false_iff_not, Nat.not_le, Nat.not_lt] at hin
+    split at h
+    · simp at h
+    · rename_i hfl
+      simp only [Bool.not_eq_true', Bool.not_eq_false] at hfl
+      split at h
+      · rename_i l r hl hr
+        simp at h; subst h
+        rw [fappend_toks, fcut_prefix_toks hl hf h0, fcut_suffix_toks hr (flatAt_depth _ _ hfl)]
+        exact ⟨rfl, hin⟩
+      · simp at h
+      · simp at h
+
+theorem removeRange_toks :
+    ∀ (rest : List Node) (level : List Node) (f0 t0 idx f t : Nat) (pre c : List Node),
+      level = pre ++ rest → idx = pre.length → f0 = fsize pre + f → t0 = fsize pre + t → f ≤ t →
+      removeRange level f0 t0 idx rest f t = .ok c →
+      ftoks c = (ftoks level).take f0 ++ (ftoks level).drop t0 ∧ t0 ≤ fsize level
+  | [], level, f0, t0, idx, f, t, pre, c, hl, hi, hf0, ht0, hft, h => by
+    unfold removeRange at h
+    split at h
+    · rename_i hd; subst hd
+      have hle : f0 ≤ fsize level := by rw [hl, fsize_append]; simp; omega
+      have h0 : depthAt level f0 = 0 := by rw [hl, hf0, depthAt_append_pre]; simp
+      exact removeFlat_toks level f0 t0 c hle h0 h
+    · simp at h
+  | n :: ns, level, f0, t0, idx, f, t, pre, c, hl, hi, hf0, ht0, hft, h => by
+    have hlsz : fsize level = fsize pre + (n.size + fsize ns) := by rw [hl, fsize_append]; simp
+    unfold removeRange at h
+    split at h
+    · rename_i hd; subst hd
+      have hle : f0 ≤ fsize level := by omega
+      have h0 : depthAt level f0 = 0 := by rw [hl, hf0, depthAt_append_pre]; simp
+      exact removeFlat_toks level f0 t0 c hle h0 h
+    · rename_i hd
+      split at h
+      · rename_i hle
+        refine removeRange_toks ns level f0 t0 (idx + 1) (f - n.size) (t - n.size) (pre ++ [n]) c
+          ?_ ?_ ?_ ?_ (by omega) h
+        · simp [hl]
+        · simp [hi]
+        · rw [fsize_append]; simp; omega
+        · rw [fsize_append]; simp; omega
+      · rename_i hlt
+        have hflat : (∀ ty a m k, n ≠ .elem ty a m k) →
+            removeRange.removeFlat level f0 t0 = .ok c →
+            ftoks c = (ftoks level).take f0 ++ (ftoks level).drop t0 ∧ t0 ≤ fsize level := by
+          intro hne hf
+          have hle : f0 ≤ fsize level := by omega
+          have h0 : depthAt level f0 = 0 := by
+            rw [hl, hf0, depthAt_append_pre]
+            exact depthAt_nonelem_cons n ns f (by omega) hne
+          exact removeFlat_toks level f0 t0 c hle h0 hf
+        split at h
+        · rename_i ty a m kids
+          simp only [Node.size_elem, Nat.not_le] at hlt
+          simp only [Node.size_elem] at hlsz
+          split at h
+          · rename_i htlt
+            simp only [Node.size_elem] at htlt
+            split at h
+            · rename_i inner hin
+              simp at h; subst h
+              have ih := removeRange_toks kids kids (f - 1) (t - 1) 0 (f - 1) (t - 1) [] inner rfl rfl
+                (by simp) (by simp) (by omega) hin
+              subst hl; subst hi; subst hf0; subst ht0
+              refine ⟨?_, by omega⟩
+              rw [set_mid, ftoks_append, ftoks_append, ftoks_cons, ftoks_cons,
+                take_app_ge _ _ _ (by rw [ftoks_length]; omega),
+                drop_app_ge _ _ _ (by rw [ftoks_length]; omega), ftoks_length,
+                Nat.add_sub_cancel_left, Nat.add_sub_cancel_left,
+                take_elem_toks _ _ _ _ _ _ hd hlt,
+                drop_elem_toks _ _ _ _ _ _ (by omega) (by omega)]
+              simp [ih.1]
+            · simp at h
+          · simp at h
+        · rename_i hne
+          exact hflat (by intro ty a m k he; exact hne ty a m k he) h
 
 /-- `Slice.remove_between(from, to)` removes the tokens in between -/
 theorem removeBetween_toks (sl out : Slice) (f t : Nat) (hwf : sl.wf = true)
@@ -96,16 +418,66 @@ theorem removeBetween_toks (sl out : Slice) (f t : Nat) (hwf : sl.wf = true)
     (h : sl.removeBetween f t = .ok out) :
     out.toks = sl.toks.take f ++ sl.toks.drop t ∧
     out.openStart = sl.openStart ∧ out.openEnd = sl.openEnd := by
-  sorry
+  unfold Slice.removeBetween at h
+  simp only at h
+  split at h
+  · simp at h
+  · split at h
+    · rename_i c hc
+      simp at h; subst h
+      obtain ⟨htk, hle⟩ := removeRange_toks sl.content sl.content _ _ 0 _ _ [] c rfl rfl (by simp) (by simp)
+        (by omega) hc
+      refine ⟨?_, rfl, rfl⟩
+      have hw := wf_opens_le hwf
+      simp only [Slice.size] at ht
+      have hsz : fsize c = fsize sl.content - (t - f) := by
+        have := congrArg List.length htk
+        simp only [List.length_append, List.length_take, List.length_drop, ftoks_length] at this
+        omega
+      simp only [Slice.toks, htk, hsz]
+      have := remove_window (ftoks sl.content) sl.openStart f t sl.openEnd hft
+        (by rw [ftoks_length]; omega)
+      simpa only [ftoks_length] using this
+    · simp at h
 
 /-! ### apply on tokens -/
+
+theorem fromReplace_toks (S : Schema) (doc doc' : Node) (f t : Nat) (sl : Slice)
+    (h : S.fromReplace doc f t sl = .ok doc') :
+    ftoks doc'.kids = (ftoks doc.kids).take f ++ sl.toks ++ (ftoks doc.kids).drop t ∧
+    f ≤ t ∧ t ≤ fsize doc.kids ∧ sl.wf = true ∧ doc'.sameMarkup doc = true := by
+  unfold Schema.fromReplace Schema.replace at h
+  cases doc with
+  | text s m => simp at h
+  | leaf ty a m => simp at h
+  | elem ty a m kids =>
+    simp only at h
+    cases hr : replaceKids S ty kids f t sl with
+    | error e => rw [hr] at h; simp [Except.map] at h
+    | ok k' =>
+      rw [hr] at h; simp [Except.map] at h; subst h
+      obtain ⟨h1, h2, h3⟩ := replaceKids_guards S ty kids f t sl k' hr
+      exact ⟨replaceKids_toks S ty kids f t sl k' hr, h1, h2, h3, by simp [Node.sameMarkup]⟩
 
 /-- **replace step** -/
 theorem apply_replace_toks (S : Schema) (doc doc' : Node) (f t : Nat) (sl : Slice) (st : Bool)
     (h : S.apply (.replace f t sl st) doc = .ok doc') :
     ftoks doc'.kids = (ftoks doc.kids).take f ++ sl.toks ++ (ftoks doc.kids).drop t ∧
     f ≤ t ∧ t ≤ fsize doc.kids ∧ doc'.sameMarkup doc = true := by
-  sorry
+  have key : S.fromReplace doc f t sl = .ok doc' := by
+    unfold Schema.apply at h
+    simp only at h
+    split at h
+    · split at h
+      · simp at h
+      · simp at h
+      · exact h
+    · exact h
+  obtain ⟨h1, h2, h3, _, h5⟩ := fromReplace_toks S doc doc' f t sl key
+  exact ⟨h1, h2, h3, h5⟩
+
+theorem Slice.toks_closed (c : List Node) : (Slice.mk c 0 0).toks = ftoks c := by
+  simp [Slice.toks, ← ftoks_length]
 
 /-- **replace-around step**: the gap is kept, the slice is placed around it -/
 theorem apply_replaceAround_toks (S : Schema) (doc doc' : Node) (f t gf gt : Nat) (sl : Slice)
@@ -115,19 +487,787 @@ theorem apply_replaceAround_toks (S : Schema) (doc doc' : Node) (f t gf gt : Nat
     ftoks doc'.kids = (ftoks doc.kids).take f ++ sl.toks.take ins
         ++ ((ftoks doc.kids).drop gf).take (gt - gf) ++ sl.toks.drop ins ++ (ftoks doc.kids).drop t ∧
     t ≤ fsize doc.kids ∧ doc'.sameMarkup doc = true := by
-  sorry
+  unfold Schema.apply at h
+  simp only at h
+  split at h
+  · simp at h
+  · split at h
+    · simp at h
+    · rename_i gap hgap
+      split at h
+      · simp at h
+      · rename_i hopen
+        simp only [ne_eq, Bool.or_eq_true, decide_eq_true_eq, not_or, Decidable.not_not] at hopen
+        split at h
+        · simp at h
+        · simp at h
+        · rename_i inserted hinst
+          obtain ⟨h1, h2, h3, _, h5⟩ := fromReplace_toks S doc doc' f t inserted h
+          obtain ⟨i1, _, _⟩ := insertAt_toks S sl inserted ins gap.content hwf hins hinst
+          have hgt : ftoks gap.content = ((ftoks doc.kids).drop gf).take (gt - gf) := by
+            have : gap = ⟨gap.content, 0, 0⟩ := by
+              cases gap; simp at hopen; simp [hopen.1, hopen.2]
+            rw [← Slice.toks_closed, ← this]
+            exact sliceKids_toks doc.kids gf gt gap hg.2.1 (by omega) hgap
+          refine ⟨?_, h3, h5⟩
+          rw [h1, i1, hgt]; simp
+
+/-! ### mark steps -/
+
+/-! ### contexts: the stack of enclosing types -/
+
+/-- the stack of enclosing element types after reading a token list -/
+def stackAfter : List TypeId → List Tok → List TypeId
+  | st, [] => st
+  | st, .op t _ _ :: r => stackAfter (t :: st) r
+  | st, .cl :: r => stackAfter st.tail r
+  | st, .leaf .. :: r => stackAfter st r
+  | st, .unit .. :: r => stackAfter st r
+
+theorem ctxAux_length : ∀ (l : List Tok) (st : List TypeId), (ctxAux st l).length = l.length
+  | [], st => by simp [ctxAux]
+  | .op .. :: r, st => by simp [ctxAux, ctxAux_length r]
+  | .cl :: r, st => by simp [ctxAux, ctxAux_length r]
+  | .leaf .. :: r, st => by simp [ctxAux, ctxAux_length r]
+  | .unit .. :: r, st => by simp [ctxAux, ctxAux_length r]
+
+theorem ctxAux_append : ∀ (a b : List Tok) (st : List TypeId),
+    ctxAux st (a ++ b) = ctxAux st a ++ ctxAux (stackAfter st a) b
+  | [], b, st => by simp [ctxAux, stackAfter]
+  | .op .. :: r, b, st => by simp [ctxAux, stackAfter, ctxAux_append r]
+  | .cl :: r, b, st => by simp [ctxAux, stackAfter, ctxAux_append r]
+  | .leaf .. :: r, b, st => by simp [ctxAux, stackAfter, ctxAux_append r]
+  | .unit .. :: r, b, st => by simp [ctxAux, stackAfter, ctxAux_append r]
+
+theorem stackAfter_append : ∀ (a b : List Tok) (st : List TypeId),
+    stackAfter st (a ++ b) = stackAfter (stackAfter st a) b
+  | [], b, st => by simp [stackAfter]
+  | .op .. :: r, b, st => by simp [stackAfter, stackAfter_append r]
+  | .cl :: r, b, st => by simp [stackAfter, stackAfter_append r]
+  | .leaf .. :: r, b, st => by simp [stackAfter, stackAfter_append r]
+  | .unit .. :: r, b, st => by simp [stackAfter, stackAfter_append r]
+
+theorem stackAfter_units (s : List Nat) (m : Marks) (st : List TypeId) :
+    stackAfter st (s.map (Tok.unit · m)) = st := by
+  induction s with
+  | nil => simp [stackAfter]
+  | cons c s ih => simp [stackAfter, ih]
+
+mutual
+theorem Node.stackAfter_toks : ∀ (n : Node) (st : List TypeId), stackAfter st n.toks = st
+  | .text s m, st => by rw [Node.toks_text]; exact stackAfter_units s m st
+  | .leaf t a m, st => by simp [stackAfter]
+  | .elem t a m kids, st => by
+    rw [Node.toks_elem]
+    simp only [stackAfter]
+    rw [stackAfter_append, stackAfter_ftoks kids]
+    simp [stackAfter]
+theorem stackAfter_ftoks : ∀ (l : List Node) (st : List TypeId), stackAfter st (ftoks l) = st
+  | [], st => by simp [stackAfter]
+  | n :: ns, st => by
+    rw [ftoks_cons, stackAfter_append, Node.stackAfter_toks n, stackAfter_ftoks ns]
+end
+
+/-- the prefix of a node list's tokens leaves on the stack exactly the ancestors of the position -/
+theorem stackAfter_take : ∀ (l : List Node) (f : Nat) (st : List TypeId), f ≤ fsize l →
+    stackAfter st ((ftoks l).take f) = stackAfter st (ancestorOpens l f)
+  | [], f, st, h => by simp [ancestorOpens]
+  | n :: ns, f, st, h => by
+    rw [ancestorOpens_cons]
+    split
+    · rename_i h0; subst h0; simp
+    · rename_i h0
+      split
+      · rename_i hle
+        rw [ftoks_cons, take_app_ge _ _ _ (by rw [Node.toks_length]; exact hle), stackAfter_append,
+          Node.stackAfter_toks, Node.toks_length]
+        exact stackAfter_take ns _ st (by simp at h; omega)
+      · rename_i hlt
+        cases n with
+        | text s m =>
+          simp only [Node.size_text, Nat.not_le] at hlt
+          rw [ftoks_cons, take_app_le _ _ _ (by simp; omega), Node.toks_text, ← List.map_take,
+            stackAfter_units]
+          simp [stackAfter]
+        | leaf t a m => simp at hlt; omega
+        | elem t a m kids =>
+          simp only [Node.size_elem, Nat.not_le] at hlt
+          rw [ftoks_cons, take_elem_toks _ _ _ _ _ _ h0 hlt]
+          simp only [stackAfter]
+          exact stackAfter_take kids (f - 1) (t :: st) (by omega)
+
+/-- a list of open tokens pushes a fixed list of types -/
+theorem stackAfter_ancestorOpens : ∀ (l : List Node) (f : Nat),
+    ∃ σ : List TypeId, σ.length = depthAt l f ∧ ∀ st, stackAfter st (ancestorOpens l f) = σ ++ st
+  | [], f => ⟨[], by simp [depthAt], by simp [ancestorOpens, stackAfter]⟩
+  | n :: ns, f => by
+    rw [ancestorOpens_cons, depthAt_cons]
+    split
+    · exact ⟨[], rfl, by simp [stackAfter]⟩
+    · split
+      · exact stackAfter_ancestorOpens ns _
+      · cases n with
+        | text s m => exact ⟨[], rfl, by simp [stackAfter]⟩
+        | leaf t a m => exact ⟨[], rfl, by simp [stackAfter]⟩
+        | elem t a m kids =>
+          obtain ⟨σ, h1, h2⟩ := stackAfter_ancestorOpens kids (f - 1)
+          refine ⟨σ ++ [t], by simp [h1]; omega, ?_⟩
+          intro st
+          simp only [stackAfter, h2]
+          simp
+
+/-- contexts only depend on the part of the stack that the tokens can reach -/
+theorem ctxAux_stack_ext (top : TypeId) (st : List TypeId) : ∀ (W : List Tok) (σ : List TypeId),
+    (∀ k, -(σ.length : Int) ≤ balance (W.take k)) →
+    ctxAux (σ ++ [top]) W = ctxAux (σ ++ top :: st) W
+  | [], σ, _ => by simp [ctxAux]
+  | .op t a m :: r, σ, h => by
+    simp only [ctxAux]
+    have ih := ctxAux_stack_ext top st r (t :: σ) (by
+      intro k
+      have := h (k + 1)
+      simp [Tok.delta] at this ⊢; omega)
+    simp only [List.cons_append] at ih
+    rw [ih]
+    cases σ <;> simp
+  | .cl :: r, σ, h => by
+    cases σ with
+    | nil =>
+      have := h 1
+      simp [Tok.delta] at this
+    | cons x σ' =>
+      simp only [ctxAux, List.cons_append, List.tail_cons, List.headD_cons]
+      rw [ctxAux_stack_ext top st r σ' (by
+        intro k
+        have := h (k + 1)
+        simp [Tok.delta] at this ⊢; omega)]
+  | .leaf t a m :: r, σ, h => by
+    simp only [ctxAux]
+    rw [ctxAux_stack_ext top st r σ (by
+      intro k
+      have := h (k + 1)
+      simp [Tok.delta] at this ⊢; omega)]
+    cases σ <;> simp
+  | .unit u m :: r, σ, h => by
+    simp only [ctxAux]
+    rw [ctxAux_stack_ext top st r σ (by
+      intro k
+      have := h (k + 1)
+      simp [Tok.delta] at this ⊢; omega)]
+    cases σ <;> simp
+
+/-! ### the slice of a range and the contexts of its tokens -/
+
+/-- type of the node `sliceScan` stops at (the node at the shared depth of the two offsets) -/
+def sharedTy : (ty : TypeId) → (rest : List Node) → (f t : Nat) → TypeId
+  | ty, [], _, _ => ty
+  | ty, n :: ns, f, t =>
+    if f = 0 then ty
+    else if n.size ≤ f then sharedTy ty ns (f - n.size) (t - n.size)
+    else match n with
+      | .elem ty' _ _ kids => if t < n.size then sharedTy ty' kids (f - 1) (t - 1) else ty
+      | _ => ty
+
+theorem sharedTy_cons (ty : TypeId) (n : Node) (ns : List Node) (f t : Nat) :
+    sharedTy ty (n :: ns) f t =
+      if f = 0 then ty
+      else if n.size ≤ f then sharedTy ty ns (f - n.size) (t - n.size)
+      else match n with
+        | .elem ty' _ _ kids => if t < n.size then sharedTy ty' kids (f - 1) (t - 1) else ty
+        | _ => ty := by
+  conv => lhs; unfold sharedTy
+
+/-- what the mark steps need to know about `doc.slice f t`: the content's tokens are the range's
+    tokens between `openStart` opens and `openEnd` closes, and the contexts of the range's tokens
+    computed inside the slice content (top type = the shared parent) are those in the document -/
+def SliceCtx (top : TypeId) (level : List Node) (f0 t0 : Nat) (p : TypeId) (s : Slice) : Prop :=
+  ∃ A : List Tok,
+    ftoks s.content = A ++ ((ftoks level).drop f0).take (t0 - f0) ++ List.replicate s.openEnd Tok.cl ∧
+    A.length = s.openStart ∧
+    ∀ st, ctxAux (stackAfter [p] A) (((ftoks level).drop f0).take (t0 - f0)) =
+      ctxAux (stackAfter (top :: st) ((ftoks level).take f0)) (((ftoks level).drop f0).take (t0 - f0))
+
+theorem balance_window (L : List Tok) (f n k : Nat) :
+    balance (((L.drop f).take n).take k) = balance (L.take (f + min k n)) - balance (L.take f) := by
+  rw [List.take_take]
+  have : L.take (f + min k n) = L.take f ++ (L.drop f).take (min k n) := by
+    rw [List.take_add]
+  rw [this, balance_append]; omega
+
+theorem sliceHere_ctx (top : TypeId) (level : List Node) (f0 t0 : Nat) (s : Slice) (hft : f0 < t0)
+    (ht : t0 ≤ fsize level) (h : sliceHere level f0 t0 = .ok s) : SliceCtx top level f0 t0 top s := by
+  unfold sliceHere at h
+  cases hc : fcut level f0 t0 with
+  | error e => simp [hc] at h
+  | ok c =>
+    simp [hc] at h
+    subst h
+    have htk := fcut_toks level c f0 t0 hft ht hc
+    refine ⟨ancestorOpens level f0, htk, ancestorOpens_length level f0, ?_⟩
+    intro st
+    obtain ⟨σ, hσ1, hσ2⟩ := stackAfter_ancestorOpens level f0
+    rw [stackAfter_take level f0 _ (by omega), hσ2, hσ2]
+    apply ctxAux_stack_ext
+    intro k
+    rw [balance_window, hσ1, depthAt_balance level f0 (by omega)]
+    have := balance_prefix_nonneg level (f0 + min k (t0 - f0))
+    omega
+
+theorem sliceCtx_lift (top : TypeId) (pre : List Node) (ty : TypeId) (a : Attrs) (m : Marks)
+    (kids ns : List Node) (f t : Nat) (p : TypeId) (s : Slice) (hf : 0 < f) (hft : f < t)
+    (ht : t < 2 + fsize kids)
+    (hW : ((ftoks (pre ++ .elem ty a m kids :: ns)).drop (fsize pre + f)).take (fsize pre + t - (fsize pre + f))
+      = ((ftoks kids).drop (f - 1)).take (t - 1 - (f - 1)))
+    (h : SliceCtx ty kids (f - 1) (t - 1) p s) :
+    SliceCtx top (pre ++ .elem ty a m kids :: ns) (fsize pre + f) (fsize pre + t) p s := by
+  obtain ⟨A, h1, h2, h3⟩ := h
+  refine ⟨A, by rw [hW]; exact h1, h2, ?_⟩
+  intro st
+  rw [hW, h3 (top :: st)]
+  congr 1
+  rw [ftoks_append, take_app_ge _ _ _ (by rw [ftoks_length]; omega), ftoks_length,
+    Nat.add_sub_cancel_left, ftoks_cons, take_elem_toks _ _ _ _ _ _ (by omega) (by omega),
+    stackAfter_append, stackAfter_ftoks]
+  simp [stackAfter]
+
+theorem sliceScan_ctx (top : TypeId) : ∀ (rest level : List Node) (f0 t0 f t : Nat) (pre : List Node) (s : Slice),
+    level = pre ++ rest → f0 = fsize pre + f → t0 = fsize pre + t → f < t → t ≤ fsize rest →
+    sliceScan level f0 t0 rest f t = .ok s → SliceCtx top level f0 t0 (sharedTy top rest f t) s
+  | [], level, f0, t0, f, t, pre, s, _, _, _, hft, ht, _ => by simp at ht; omega
+  | n :: ns, level, f0, t0, f, t, pre, s, hl, hf0, ht0, hft, ht, h => by
+    simp only [fsize_cons] at ht
+    have hlsz : fsize level = fsize pre + (n.size + fsize ns) := by rw [hl, fsize_append]; simp
+    have here : sliceHere level f0 t0 = .ok s → SliceCtx top level f0 t0 top s :=
+      fun hh => sliceHere_ctx top level f0 t0 s (by omega) (by omega) hh
+    have hspec := sliceScan_spec (n :: ns) level f0 t0 f t pre s hl hf0 ht0 hft (by simpa using ht) h
+    rw [sliceScan_cons] at h
+    rw [sharedTy_cons]
+    split at h
+    · rename_i hfz
+      rw [if_pos hfz]; exact here h
+    · rename_i hfz
+      rw [if_neg hfz]
+      split at h
+      · rename_i hsz
+        rw [if_pos hsz]
+        refine sliceScan_ctx top ns level f0 t0 (f - n.size) (t - n.size) (pre ++ [n]) s ?_ ?_ ?_
+          (by omega) (by omega) h
+        · rw [hl]; simp
+        · rw [fsize_append]; simp; omega
+        · rw [fsize_append]; simp; omega
+      · rename_i hsz
+        rw [if_neg hsz]
+        cases n with
+        | text s' m => exact here h
+        | leaf ty a m => exact here h
+        | elem ty a m kids =>
+          simp only at h ⊢
+          simp at hsz
+          split at h
+          · rename_i htsz
+            rw [if_pos htsz]
+            simp at htsz
+            have hk := sliceScan_ctx ty kids kids (f - 1) (t - 1) (f - 1) (t - 1) [] s (by simp) (by simp)
+              (by simp) (by omega) (by omega) h
+            have hks := sliceScan_spec kids kids (f - 1) (t - 1) (f - 1) (t - 1) [] s (by simp) (by simp)
+              (by simp) (by omega) (by omega) h
+            subst hl; subst hf0; subst ht0
+            exact sliceCtx_lift top pre ty a m kids ns f t _ s (by omega) hft htsz
+              (by rw [← hspec.toks, hks.toks]) hk
+          · rename_i htsz
+            rw [if_neg htsz]
+            exact here h
+
+theorem sliceKids_ctx (top : TypeId) (kids : List Node) (f t : Nat) (s : Slice) (hft : f < t)
+    (ht : t ≤ fsize kids) (h : sliceKids kids f t = .ok s) :
+    SliceCtx top kids f t (sharedTy top kids f t) s := by
+  unfold sliceKids at h
+  rw [if_neg (by omega)] at h
+  split at h
+  · simp at h
+  · exact sliceScan_ctx top kids kids f t f t [] s (by simp) (by simp) (by simp) hft ht h
+
+/-! ### `sharedParentTy` is the type `sliceScan` stops at -/
+
+/-- descend along a resolved path while the next node's content still contains `t` -/
+def pathShared (t : Nat) : Path → Node
+  | [] => default
+  | [e] => e.node
+  | e :: e' :: tl =>
+    if e.pos + 1 ≤ t ∧ t ≤ e.pos + 1 + fsize e'.node.kids then pathShared t (e' :: tl) else e.node
+
+theorem pathShared_resolveScan (S : Schema) (node : Node) (start : Nat) (rest : List Node)
+    (idx cur po : Nat) (path : Path) (trel : Nat) (hle : po ≤ trel)
+    (h : resolveScan node start rest idx cur po = some path) :
+    S.tyOf (pathShared (start + cur + trel) path) = sharedTy (S.tyOf node) rest po trel := by
+  fun_induction resolveScan node start rest idx cur po generalizing path trel
+  case case1 => simp at h; subst h; simp [pathShared, sharedTy]
+  case case2 => simp at h
+  case case3 => simp at h; subst h; simp [pathShared, sharedTy_cons]
+  case case4 node start n ns idx cur po h0 h1 ih =>
+    rw [sharedTy_cons, if_neg h0, if_pos h1]
+    have := ih path (trel - n.size) (by omega) h
+    rwa [show start + (cur + n.size) + (trel - n.size) = start + cur + trel by omega] at this
+  case case5 node start ns idx cur po h0 ty ats mk kids h1 ih =>
+    rw [sharedTy_cons, if_neg h0, if_neg h1]
+    cases hr : resolveScan (Node.elem ty ats mk kids) (start + cur + 1) kids 0 0 (po - 1) with
+    | none => simp [hr] at h
+    | some p' =>
+      simp only [hr, Option.map_some, Option.some.injEq] at h
+      obtain ⟨_, ⟨e', tl, rfl, he'⟩, _⟩ :=
+        resolveScan_ok (Node.elem ty ats mk kids) (start + cur + 1) kids 0 0 (po - 1) p' []
+          (by simp [Node.kids]) rfl (by simp) hr
+      subst h
+      have := ih (e' :: tl) (trel - 1) (by omega) hr
+      rw [show start + cur + 1 + 0 + (trel - 1) = start + cur + trel by omega] at this
+      simp only [pathShared, he', Node.kids, Node.size_elem]
+      by_cases hc : trel < 2 + fsize kids
+      · rw [if_pos (by omega), if_pos hc]
+        exact this
+      · rw [if_neg (by omega), if_neg hc]
+  case case6 node start n ns idx cur po h0 h1 hne =>
+    simp at h; subst h
+    rw [sharedTy_cons, if_neg h0, if_neg h1]
+    cases n with
+    | elem t a m k => exact (hne t a m k rfl).elim
+    | text s m => simp [pathShared]
+    | leaf t a m => simp [pathShared]
+
+/-- `pathShared` by index: the first depth whose successor's content does not contain `t` -/
+theorem pathShared_at (t : Nat) : ∀ (path : Path) (D : Nat), D < path.length →
+    (∀ k, k < D → path[k]!.pos + 1 ≤ t ∧ t ≤ path[k]!.pos + 1 + fsize path[k + 1]!.node.kids) →
+    (D + 1 < path.length →
+      ¬ (path[D]!.pos + 1 ≤ t ∧ t ≤ path[D]!.pos + 1 + fsize path[D + 1]!.node.kids)) →
+    pathShared t path = path[D]!.node
+  | [], D, h, _, _ => by simp at h
+  | [e], D, h, _, _ => by
+    have : D = 0 := by simpa using h
+    subst this; simp [pathShared]
+  | e :: e' :: tl, 0, _, _, h2 => by
+    have := h2 (by simp)
+    simp only [pathShared]
+    rw [if_neg (by simpa using this)]
+    simp
+  | e :: e' :: tl, D + 1, h, h1, h2 => by
+    have h0 := h1 0 (by omega)
+    simp only [pathShared]
+    rw [if_pos (by simpa using h0)]
+    rw [pathShared_at t (e' :: tl) D (by simpa using h)
+      (fun k hk => by simpa using h1 (k + 1) (by omega))
+      (fun hlt => by simpa using h2 (by simpa using hlt))]
+    simp
+
+theorem sharedParentTy_eq (S : Schema) (doc : Node) (f t : Nat) (p : TypeId) (hft : f ≤ t)
+    (h : sharedParentTy S doc f t = some p) : p = sharedTy (S.tyOf doc) doc.kids f t := by
+  unfold sharedParentTy at h
+  cases hr : doc.resolve f with
+  | none => simp [hr] at h
+  | some r =>
+    simp only [hr, Option.some.injEq] at h
+    subst h
+    have R := resolve_resolved hr
+    -- the path is the scan's
+    have hpath : resolveScan doc 0 doc.kids 0 0 f = some r.path := by
+      unfold Node.resolve at hr
+      split at hr
+      · cases hs : resolveScan doc 0 doc.kids 0 0 f with
+        | none => simp [hs] at hr
+        | some p' => simp [hs] at hr; subst hr; rfl
+      · simp at hr
+    have key := pathShared_resolveScan S doc 0 doc.kids 0 0 f r.path t hft hpath
+    rw [← key]
+    simp only [Nat.zero_add]
+    congr 1
+    -- the shared depth by index
+    obtain ⟨g1, g2, g3⟩ := sharedDepth_go r t r.depth
+    have hD : r.sharedDepth t = RPos.sharedDepth.go r t r.depth := rfl
+    generalize RPos.sharedDepth.go r t r.depth = D at g1 g2 g3 hD
+    rw [hD]
+    have hwin : ∀ k, r.start (k + 1) = r.path[k]!.pos + 1 ∧
+        r.end_ (k + 1) = r.path[k]!.pos + 1 + fsize r.path[k + 1]!.node.kids := by
+      intro k; simp [RPos.start, RPos.end_, RPos.entry, RPos.node]
+    -- windows are nested
+    have nested : ∀ k, k < r.depth → r.start (k + 1) ≤ t ∧ t ≤ r.end_ (k + 1) →
+        k = 0 ∨ (r.start k ≤ t ∧ t ≤ r.end_ k) := by
+      intro k hk hw
+      rcases Nat.eq_zero_or_pos k with h0 | h0
+      · exact .inl h0
+      · right
+        obtain ⟨k', rfl⟩ : ∃ k', k = k' + 1 := ⟨k - 1, by omega⟩
+        have he := R.entry (k' + 1) (by omega)
+        have hc := R.chain (k' + 1) hk
+        have hsz := child_size_le _ _ _ hc.1
+        have hpe := he.pos_eq
+        have hs : r.start (k' + 1 + 1) = (r.entry (k' + 1)).pos + 1 := Resolved.start_succ r (k' + 1)
+        have hend : r.end_ (k' + 1 + 1) = r.start (k' + 1 + 1) + fsize (r.node (k' + 1 + 1)).kids := rfl
+        have hend' : r.end_ (k' + 1) = r.start (k' + 1) + fsize (r.node (k' + 1)).kids := rfl
+        have hidx : r.index (k' + 1) = (r.entry (k' + 1)).index := rfl
+        have hnode : r.node (k' + 1) = (r.entry (k' + 1)).node := rfl
+        rw [hidx, hnode] at hsz
+        rw [hnode] at hend'
+        omega
+    have down : ∀ j k, k + j = D → k ≠ 0 → r.start k ≤ t ∧ t ≤ r.end_ k := by
+      intro j
+      induction j with
+      | zero =>
+        intro k hk hk0
+        rcases g2 with g | g
+        · omega
+        · have : k = D := by omega
+          subst this; exact g
+      | succ j ih =>
+        intro k hk hk0
+        have := ih (k + 1) (by omega) (by omega)
+        rcases nested k (by omega) this with h0 | h0
+        · exact absurd h0 hk0
+        · exact h0
+    rw [show r.node D = r.path[D]!.node from rfl]
+    symm
+    apply pathShared_at t r.path D (by rw [R.length_eq]; omega)
+    · intro k hk
+      have := down (D - (k + 1)) (k + 1) (by omega) (by omega)
+      rw [(hwin k).1, (hwin k).2] at this
+      exact this
+    · intro hlt
+      rw [R.length_eq] at hlt
+      have := g3 (D + 1) (by omega) (by omega)
+      rw [(hwin D).1, (hwin D).2] at this
+      exact this
+
+theorem mapIdxCtx_getElem? (g : Nat → TypeId → Tok → Tok) (top : TypeId) (l : List Tok) (i : Nat) :
+    (mapIdxCtx g top l)[i]? =
+      if i < l.length then some (g i ((ctxOf top l).getD i 0) (l.getD i Tok.cl)) else none := by
+  unfold mapIdxCtx
+  by_cases hi : i < l.length
+  · rw [if_pos hi, List.getElem?_map, List.getElem?_range hi]; rfl
+  · rw [if_neg hi]
+    apply List.getElem?_eq_none
+    simp; omega
+
+/-- a map that only acts inside `[f, t)` -/
+theorem mapIdxCtx_window (g : Nat → TypeId → Tok → Tok) (h : TypeId → Tok → Tok) (top : TypeId)
+    (l : List Tok) (f t : Nat) (hft : f ≤ t) (ht : t ≤ l.length)
+    (hout : ∀ i p tok, ¬ (f ≤ i ∧ i < t) → g i p tok = tok)
+    (hin : ∀ i p tok, f ≤ i → i < t → g i p tok = h p tok) :
+    mapIdxCtx g top l = l.take f ++
+      List.zipWith h (((ctxOf top l).drop f).take (t - f)) ((l.drop f).take (t - f)) ++ l.drop t := by
+  have hcl : (ctxOf top l).length = l.length := ctxAux_length l [top]
+  have hm1 : min f l.length = f := by omega
+  have hm2 : min (t - f) (l.length - f) = t - f := by omega
+  apply List.ext_getElem?
+  intro i
+  rw [mapIdxCtx_getElem?]
+  by_cases hi : i < l.length
+  · rw [if_pos hi]
+    by_cases h1 : i < f
+    · rw [hout i _ _ (by omega), List.append_assoc, List.getElem?_append_left (by simp; omega)]
+      simp [h1, List.getD_eq_getElem?_getD, hi]
+    · by_cases h2 : i < t
+      · rw [hin i _ _ (by omega) h2, List.append_assoc, List.getElem?_append_right (by simp; omega),
+          List.getElem?_append_left (by simp; omega)]
+        have e : f + (i - f) = i := by omega
+        simp [List.getElem?_zipWith, List.getElem?_drop, List.getD_eq_getElem?_getD,
+          hi, hcl, hm1, e, show i - f < t - f by omega]
+      · rw [hout i _ _ (by omega), List.getElem?_append_right (by simp; omega)]
+        have e : t + (i - (f + (t - f))) = i := by omega
+        simp [List.getElem?_drop, List.getD_eq_getElem?_getD, hi, hcl, hm1, hm2, e]
+  · rw [if_neg hi]
+    symm
+    apply List.getElem?_eq_none
+    simp [hcl]; omega
+
+/-- pointwise map with contexts -/
+def mapCtx (g : TypeId → Tok → Tok) (st : List TypeId) (l : List Tok) : List Tok :=
+  List.zipWith g (ctxAux st l) l
+
+theorem mapCtx_append (g : TypeId → Tok → Tok) (st : List TypeId) (a b : List Tok) :
+    mapCtx g st (a ++ b) = mapCtx g st a ++ mapCtx g (stackAfter st a) b := by
+  unfold mapCtx
+  rw [ctxAux_append, List.zipWith_append (ctxAux_length a st)]
+
+/-- what AddMarkStep does to one token in context `p` -/
+def addTok (S : Schema) (mrk : Mark) (p : TypeId) (tok : Tok) : Tok :=
+  if isAtomTok S tok = true ∧ (S.nodeType p).allowsMarkType mrk.ty = true
+  then tok.withMarks (mrk.addToSet S tok.marks) else tok
+
+theorem mapCtx_units (g : TypeId → Tok → Tok) (p : TypeId) (st : List TypeId) (s : List Nat) (m : Marks) :
+    mapCtx g (p :: st) (s.map (Tok.unit · m)) = s.map (fun c => g p (Tok.unit c m)) := by
+  induction s with
+  | nil => simp [mapCtx, ctxAux]
+  | cons c s ih =>
+    unfold mapCtx at ih ⊢
+    simp [ctxAux, ih]
+
+mutual
+theorem addMarkNode_toks (S : Schema) (mrk : Mark) : ∀ (n : Node) (p : TypeId) (st : List TypeId),
+    mapCtx (addTok S mrk) (p :: st) n.toks = (addMarkNode S mrk p n).toks
+  | .text s m, p, st => by
+    rw [Node.toks_text, mapCtx_units]
+    unfold addMarkNode
+    by_cases h : (S.nodeType p).allowsMarkType mrk.ty = true
+    · simp [addTok, isAtomTok, h, Tok.withMarks, Tok.marks]
+    · simp [addTok, isAtomTok, h]
+  | .leaf t a m, p, st => by
+    unfold addMarkNode
+    by_cases h : ((S.nodeType t).isInline && (S.nodeType p).allowsMarkType mrk.ty) = true
+    · rw [if_pos h]
+      simp only [Bool.and_eq_true] at h
+      simp [mapCtx, ctxAux, addTok, isAtomTok, h, Tok.withMarks, Tok.marks]
+    · rw [if_neg h]
+      simp only [Bool.and_eq_true] at h
+      simp [mapCtx, ctxAux, addTok, isAtomTok, h]
+  | .elem t a m kids, p, st => by
+    have ih := addMarkKids_toks S mrk kids t (p :: st)
+    unfold addMarkNode
+    simp only
+    have hstep : mapCtx (addTok S mrk) (p :: st) (Node.elem t a m kids).toks =
+        addTok S mrk p (Tok.op t a m) :: (ftoks (addMarkKids S mrk t kids) ++ [Tok.cl]) := by
+      rw [Node.toks_elem]
+      have : mapCtx (addTok S mrk) (p :: st) (Tok.op t a m :: (ftoks kids ++ [Tok.cl])) =
+          addTok S mrk p (Tok.op t a m) :: mapCtx (addTok S mrk) (t :: p :: st) (ftoks kids ++ [Tok.cl]) := by
+        simp [mapCtx, ctxAux]
+      rw [this, mapCtx_append, ih, stackAfter_ftoks]
+      simp [mapCtx, ctxAux, addTok, isAtomTok]
+    rw [hstep]
+    by_cases h : ((S.nodeType t).isInline && (S.nodeType t).isAtom && (S.nodeType p).allowsMarkType mrk.ty) = true
+    · rw [if_pos h]
+      simp only [Bool.and_eq_true] at h
+      simp [addTok, isAtomTok, h, Tok.withMarks, Tok.marks, fromArray_toks]
+    · rw [if_neg h]
+      simp only [Bool.and_eq_true] at h
+      simp [addTok, isAtomTok, h, fromArray_toks]
+theorem addMarkKids_toks (S : Schema) (mrk : Mark) : ∀ (l : List Node) (p : TypeId) (st : List TypeId),
+    mapCtx (addTok S mrk) (p :: st) (ftoks l) = ftoks (addMarkKids S mrk p l)
+  | [], p, st => by simp [mapCtx, ctxAux, addMarkKids]
+  | n :: ns, p, st => by
+    rw [ftoks_cons, mapCtx_append, Node.stackAfter_toks, addMarkNode_toks S mrk n p st,
+      addMarkKids_toks S mrk ns p st]
+    simp [addMarkKids]
+end
+
+theorem mapCtx_length (g : TypeId → Tok → Tok) (st : List TypeId) (l : List Tok) :
+    (mapCtx g st l).length = l.length := by
+  simp [mapCtx, ctxAux_length]
+
+/-- contexts of a window -/
+theorem ctxAux_window (st : List TypeId) (L : List Tok) (f n : Nat) (h : f + n ≤ L.length) :
+    ((ctxAux st L).drop f).take n = ctxAux (stackAfter st (L.take f)) ((L.drop f).take n) := by
+  have e : L = L.take f ++ ((L.drop f).take n ++ (L.drop f).drop n) := by
+    rw [List.take_append_drop, List.take_append_drop]
+  conv => lhs; rw [e]
+  rw [ctxAux_append, ctxAux_append,
+    List.drop_left' (by rw [ctxAux_length]; simp; omega),
+    List.take_left' (by rw [ctxAux_length]; simp; omega)]
+
+theorem zipWith_ignore_left {α β γ} (k : β → γ) : ∀ (l1 : List α) (l2 : List β), l1.length = l2.length →
+    List.zipWith (fun _ b => k b) l1 l2 = l2.map k
+  | [], [], _ => rfl
+  | [], _ :: _, h => by simp at h
+  | _ :: _, [], h => by simp at h
+  | _ :: l1, _ :: l2, h => by simp [zipWith_ignore_left k l1 l2 (by simpa using h)]
+
+/-- the slice of a list flanked by `a` and `e` extra elements -/
+theorem window_of_flanked {α} (A W R : List α) (a e : Nat) (ha : A.length = a) (he : R.length = e) :
+    ((A ++ W ++ R).drop a).take ((A ++ W ++ R).length - a - e) = W := by
+  rw [List.append_assoc, List.drop_left' ha, List.take_left' (by simp; omega)]
 
 /-- **add-mark step** -/
 theorem apply_addMark_toks (S : Schema) (doc doc' : Node) (f t : Nat) (m : Mark)
     (h : S.apply (.addMark f t m) doc = .ok doc') :
     ftoks doc'.kids = addMarkToks S m f t (S.tyOf doc) (ftoks doc.kids) ∧ doc'.sameMarkup doc = true := by
-  sorry
+  unfold Schema.apply at h
+  simp only at h
+  split at h
+  · simp at h
+  · rename_i old hold
+    split at h
+    · simp at h
+    · rename_i p hp
+      obtain ⟨h1, hft, htl, _, h5⟩ := fromReplace_toks S doc doc' f t _ h
+      refine ⟨?_, h5⟩
+      have hlen := ftoks_length doc.kids
+      unfold addMarkToks
+      rw [mapIdxCtx_window _ (addTok S m) (S.tyOf doc) (ftoks doc.kids) f t hft (by omega)
+        (fun i p tok hn => by rw [if_neg (fun hc => hn ⟨hc.1, hc.2.1⟩)])
+        (fun i p tok h1 h2 => by simp [addTok, h1, h2])]
+      rw [h1]
+      congr 2
+      -- the new slice's tokens are the mapped window
+      unfold ctxOf
+      rw [ctxAux_window _ _ _ _ (by omega)]
+      by_cases he : f = t
+      · subst he
+        simp [Node.slice, sliceKids] at hold
+        subst hold
+        simp [Slice.toks, Slice.empty, addMarkKids, fromArray, addNodes, ctxAux]
+      · have hlt : f < t := by omega
+        have hp' := sharedParentTy_eq S doc f t p hft hp
+        obtain ⟨A, hC, hA, hctx⟩ := sliceKids_ctx (S.tyOf doc) doc.kids f t old hlt htl hold
+        rw [← hp'] at hctx
+        rw [← hctx []]
+        simp only [Slice.toks, fromArray_toks, fromArray_size]
+        rw [← ftoks_length, ← addMarkKids_toks S m old.content p [], hC, mapCtx_append, mapCtx_append]
+        rw [window_of_flanked _ _ _ _ _ (by rw [mapCtx_length]; exact hA)
+          (by rw [mapCtx_length]; simp)]
+        rfl
+
+/-- what RemoveMarkStep does to one token -/
+def remTok (S : Schema) (mrk : Mark) (tok : Tok) : Tok :=
+  if isInlineTok S tok = true then tok.withMarks (mrk.removeFromSet tok.marks) else tok
+
+mutual
+theorem removeMarkNode_toks (S : Schema) (mrk : Mark) : ∀ (n : Node),
+    (removeMarkNode S mrk n).toks = n.toks.map (remTok S mrk)
+  | .text s m => by
+    unfold removeMarkNode
+    simp [remTok, isInlineTok, Tok.withMarks, Tok.marks, Function.comp_def]
+  | .leaf t a m => by
+    unfold removeMarkNode
+    by_cases h : (S.nodeType t).isInline = true
+    · simp [remTok, isInlineTok, h, Tok.withMarks, Tok.marks]
+    · simp [remTok, isInlineTok, h]
+  | .elem t a m kids => by
+    have ih := removeMarkKids_toks S mrk kids
+    unfold removeMarkNode
+    by_cases h : (S.nodeType t).isInline = true
+    · simp [remTok, isInlineTok, h, Tok.withMarks, Tok.marks, fromArray_toks, ih]
+    · simp [remTok, isInlineTok, h, fromArray_toks, ih]
+theorem removeMarkKids_toks (S : Schema) (mrk : Mark) : ∀ (l : List Node),
+    ftoks (removeMarkKids S mrk l) = (ftoks l).map (remTok S mrk)
+  | [] => by simp [removeMarkKids]
+  | n :: ns => by
+    simp [removeMarkKids, removeMarkNode_toks S mrk n, removeMarkKids_toks S mrk ns]
+end
 
 /-- **remove-mark step** -/
 theorem apply_removeMark_toks (S : Schema) (doc doc' : Node) (f t : Nat) (m : Mark)
     (h : S.apply (.removeMark f t m) doc = .ok doc') :
     ftoks doc'.kids = removeMarkToks S m f t (S.tyOf doc) (ftoks doc.kids) ∧ doc'.sameMarkup doc = true := by
-  sorry
+  unfold Schema.apply at h
+  simp only at h
+  split at h
+  · simp at h
+  · rename_i old hold
+    obtain ⟨h1, hft, htl, _, h5⟩ := fromReplace_toks S doc doc' f t _ h
+    refine ⟨?_, h5⟩
+    have hlen := ftoks_length doc.kids
+    unfold removeMarkToks
+    rw [mapIdxCtx_window _ (fun _ => remTok S m) (S.tyOf doc) (ftoks doc.kids) f t hft (by omega)
+      (fun i p tok hn => by rw [if_neg (fun hc => hn ⟨hc.1, hc.2.1⟩)])
+      (fun i p tok h1 h2 => by simp [remTok, h1, h2])]
+    rw [h1]
+    congr 2
+    rw [zipWith_ignore_left _ _ _ (by simp [ctxOf, ctxAux_length])]
+    have hs := sliceKids_toks doc.kids f t old hft htl hold
+    rw [← hs]
+    simp only [Slice.toks, fromArray_toks, fromArray_size, removeMarkKids_toks, List.map_take, List.map_drop]
+    rw [← ftoks_length, ← ftoks_length, removeMarkKids_toks, List.length_map]
+
+/-! ### node-markup steps -/
+
+/-- the token a non-text node starts with -/
+def Node.headTok : Node → Tok
+  | .text _ _ => Tok.cl
+  | .leaf t a m => .leaf t a m
+  | .elem t a m _ => .op t a m
+
+/-- what a successful node-markup replacement does: `n` (non-text) starts at token `pos`, and the
+    token is replaced by the head token of `u` -/
+theorem nodeRepl_toks (S : Schema) (doc doc' n u : Node) (pos : Nat) (attrs : Attrs) (marks : Marks)
+    (hn : doc.nodeAt pos = .ok (some n)) (hu : S.recreate n attrs marks = .ok u)
+    (h : S.fromReplace doc pos (pos + 1) ⟨[u], 0, if n.isLeaf then 0 else 1⟩ = .ok doc') :
+    pos < fsize doc.kids ∧
+    ftoks doc'.kids = (ftoks doc.kids).take pos ++ [u.headTok] ++ (ftoks doc.kids).drop (pos + 1) ∧
+    (ftoks doc.kids).getD pos Tok.cl = n.headTok ∧
+    u.headTok.shape = n.headTok.shape ∧ u.headTok.marks = setFrom marks ∧ n.headTok.marks = n.marks ∧
+    doc'.sameMarkup doc = true := by
+  obtain ⟨h1, _, h3, _, h5⟩ := fromReplace_toks S doc doc' pos (pos + 1) _ h
+  obtain ⟨p, hp1, hp2, hp3, hp4⟩ := nodeAtKids_some doc.kids pos n hn
+  have hnt : n.isText = false := by
+    cases n with
+    | text s m => simp [Schema.recreate] at hu
+    | leaf => rfl
+    | elem => rfl
+  have hpp : p = pos := by
+    rcases hp4 with h | h
+    · exact h
+    · rw [hnt] at h; simp at h
+  subst hpp
+  have hget : (ftoks doc.kids).getD p Tok.cl = n.headTok := by
+    have hd := congrArg List.head? hp3
+    rw [List.head?_take, List.head?_drop] at hd
+    rw [List.getD_eq_getElem?_getD]
+    cases n with
+    | text s m => simp [Node.isText] at hnt
+    | leaf t a m => simp at hd; simp [hd, Node.headTok]
+    | elem t a m k => simp at hd; simp [hd, Node.headTok]
+  have hsl : (Slice.mk [u] 0 (if n.isLeaf then 0 else 1)).toks = [u.headTok] ∧
+      u.headTok.shape = n.headTok.shape ∧ u.headTok.marks = setFrom marks ∧ n.headTok.marks = n.marks := by
+    unfold Schema.recreate at hu
+    cases n with
+    | text s m => simp [Node.isText] at hnt
+    | leaf t a m =>
+      simp only at hu
+      cases hc : computeAttrs (S.nodeType t).attrs attrs with
+      | error e => rw [hc] at hu; simp [Except.map] at hu
+      | ok a' =>
+        rw [hc] at hu; simp [Except.map] at hu; subst hu
+        simp [Slice.toks, Node.isLeaf, Node.headTok, Tok.shape, Tok.marks, Node.marks]
+    | elem t a m k =>
+      simp only at hu
+      cases hc : computeAttrs (S.nodeType t).attrs attrs with
+      | error e => rw [hc] at hu; simp [Except.map] at hu
+      | ok a' =>
+        rw [hc] at hu; simp [Except.map] at hu; subst hu
+        simp [Slice.toks, Node.isLeaf, Node.headTok, Tok.shape, Tok.marks, Node.marks]
+  refine ⟨by omega, ?_, hget, hsl.2.1, hsl.2.2.1, hsl.2.2.2, h5⟩
+  rw [h1, hsl.1]
+
+/-- the common form of the three node-markup steps -/
+theorem nodeStep_cases (S : Schema) (doc doc' : Node) (pos : Nat) (st : Step)
+    (hst : (∃ m, st = .addNodeMark pos m) ∨ (∃ m, st = .removeNodeMark pos m) ∨ (∃ n v, st = .attr pos n v))
+    (h : S.apply st doc = .ok doc') :
+    ∃ n u attrs marks, doc.nodeAt pos = .ok (some n) ∧ S.recreate n attrs marks = .ok u ∧
+      S.fromReplace doc pos (pos + 1) ⟨[u], 0, if n.isLeaf then 0 else 1⟩ = .ok doc' ∧
+      ((∃ m, st = .addNodeMark pos m ∧ marks = m.addToSet S n.marks) ∨
+       (∃ m, st = .removeNodeMark pos m ∧ marks = m.removeFromSet n.marks) ∨
+       (∃ nm v, st = .attr pos nm v)) := by
+  rcases hst with ⟨m, rfl⟩ | ⟨m, rfl⟩ | ⟨nm, v, rfl⟩
+  · unfold Schema.apply at h
+    simp only at h
+    split at h
+    · simp at h
+    · simp at h
+    · rename_i n hn
+      split at h
+      · simp at h
+      · rename_i u hu
+        exact ⟨n, u, _, _, hn, hu, h, .inl ⟨m, rfl, rfl⟩⟩
+  · unfold Schema.apply at h
+    simp only at h
+    split at h
+    · simp at h
+    · simp at h
+    · rename_i n hn
+      split at h
+      · simp at h
+      · rename_i u hu
+        exact ⟨n, u, _, _, hn, hu, h, .inr (.inl ⟨m, rfl, rfl⟩)⟩
+  · unfold Schema.apply at h
+    simp only at h
+    split at h
+    · simp at h
+    · simp at h
+    · rename_i n hn
+      split at h
+      · simp at h
+      · rename_i u hu
+        exact ⟨n, u, _, _, hn, hu, h, .inr (.inr ⟨nm, v, rfl⟩)⟩
+
+theorem getD_splice (A B : List Tok) (x : Tok) (pos : Nat) (h : pos < A.length) :
+    (A.take pos ++ [x] ++ B).getD pos Tok.cl = x := by
+  rw [List.getD_eq_getElem?_getD, List.append_assoc, List.getElem?_append_right (by simp; omega)]
+  simp [Nat.min_eq_left (Nat.le_of_lt h)]
 
 /-- **node-mark and attribute steps change only the addressed token** (its marks resp. attributes;
     type kept), every other token is untouched -/
@@ -139,33 +1279,49 @@ theorem apply_nodeStep_toks (S : Schema) (doc doc' : Node) (pos : Nat) (st : Ste
     (ftoks doc'.kids).drop (pos + 1) = (ftoks doc.kids).drop (pos + 1) ∧
     ((ftoks doc'.kids).getD pos Tok.cl).shape = ((ftoks doc.kids).getD pos Tok.cl).shape ∧
     doc'.sameMarkup doc = true := by
-  sorry
+  obtain ⟨n, u, attrs, marks, hn, hu, hr, _⟩ := nodeStep_cases S doc doc' pos st hst h
+  obtain ⟨h1, h2, h3, h4, _, _, h7⟩ := nodeRepl_toks S doc doc' n u pos attrs marks hn hu hr
+  have hlen : pos < (ftoks doc.kids).length := by rw [ftoks_length]; exact h1
+  refine ⟨h1, ?_, ?_, ?_, h7⟩
+  · rw [h2, List.append_assoc]
+    exact List.take_left' (by simp; omega)
+  · rw [h2]
+    exact List.drop_left' (by simp; omega)
+  · rw [h2, getD_splice _ _ _ _ hlen, h3, h4]
 
 /-- the marks the node-mark steps leave on the addressed token -/
 theorem apply_addNodeMark_marks (S : Schema) (doc doc' : Node) (pos : Nat) (m : Mark)
     (hc : canonicalMarks S ((ftoks doc.kids).getD pos Tok.cl).marks = true)
     (h : S.apply (.addNodeMark pos m) doc = .ok doc') :
     ((ftoks doc'.kids).getD pos Tok.cl).marks = m.addToSet S ((ftoks doc.kids).getD pos Tok.cl).marks := by
-  sorry
+  obtain ⟨n, u, attrs, marks, hn, hu, hr, hk⟩ :=
+    nodeStep_cases S doc doc' pos _ (.inl ⟨m, rfl⟩) h
+  obtain ⟨h1, h2, h3, _, h5, h6, _⟩ := nodeRepl_toks S doc doc' n u pos attrs marks hn hu hr
+  have hlen : pos < (ftoks doc.kids).length := by rw [ftoks_length]; exact h1
+  have hm : marks = m.addToSet S n.marks := by
+    rcases hk with ⟨m', he, hm⟩ | ⟨m', he, _⟩ | ⟨nm, v, he⟩
+    · cases he; exact hm
+    · cases he
+    · cases he
+  rw [h3, h6] at hc ⊢
+  rw [h2, getD_splice _ _ _ _ hlen, h5, hm]
+  exact setFrom_of_sorted _ ((canonicalMarks_iff_canonP S _).1 (addToSet_canonical S m _ hc)).sorted
 
 theorem apply_removeNodeMark_marks (S : Schema) (doc doc' : Node) (pos : Nat) (m : Mark)
     (hc : canonicalMarks S ((ftoks doc.kids).getD pos Tok.cl).marks = true)
     (h : S.apply (.removeNodeMark pos m) doc = .ok doc') :
     ((ftoks doc'.kids).getD pos Tok.cl).marks = m.removeFromSet ((ftoks doc.kids).getD pos Tok.cl).marks := by
-  sorry
-
-/-- **doc-attribute step**: content untouched -/
-theorem apply_docAttr_toks (S : Schema) (doc doc' : Node) (n v : String)
-    (h : S.apply (.docAttr n v) doc = .ok doc') : doc'.kids = doc.kids := by
-  sorry
-
-/-- mark steps keep the structure and text -/
-theorem addMarkToks_shape (S : Schema) (m : Mark) (f t : Nat) (top : TypeId) (l : List Tok) :
-    (addMarkToks S m f t top l).map Tok.shape = l.map Tok.shape := by
-  sorry
-
-theorem removeMarkToks_shape (S : Schema) (m : Mark) (f t : Nat) (top : TypeId) (l : List Tok) :
-    (removeMarkToks S m f t top l).map Tok.shape = l.map Tok.shape := by
-  sorry
+  obtain ⟨n, u, attrs, marks, hn, hu, hr, hk⟩ :=
+    nodeStep_cases S doc doc' pos _ (.inr (.inl ⟨m, rfl⟩)) h
+  obtain ⟨h1, h2, h3, _, h5, h6, _⟩ := nodeRepl_toks S doc doc' n u pos attrs marks hn hu hr
+  have hlen : pos < (ftoks doc.kids).length := by rw [ftoks_length]; exact h1
+  have hm : marks = m.removeFromSet n.marks := by
+    rcases hk with ⟨m', he, _⟩ | ⟨m', he, hm⟩ | ⟨nm, v, he⟩
+    · cases he
+    · cases he; exact hm
+    · cases he
+  rw [h3, h6] at hc ⊢
+  rw [h2, getD_splice _ _ _ _ hlen, h5, hm]
+  exact setFrom_of_sorted _ ((canonicalMarks_iff_canonP S _).1 (removeFromSet_canonical S m _ hc)).sorted
 
 end PM
